@@ -112,6 +112,7 @@ def main(pid, tier, seed, replay_path=None):
     os.makedirs(d, exist_ok=True)
     fails, evals, nontriv, classes = [], 0, set(), {}
     rec_hist, rec_answers, rec_distinct, clusters_used, baselines, unretried = 0, 0, 0, {}, 0, 0
+    seq_count, seq_exchanges, seq_answers = 0, 0, 0
     for di in range(nds):
         prof = dict(gen.PROFILES["opt"], pempty=0.0)
         ds = gen.gen_dataset(rng.fork(), prof)
@@ -226,6 +227,42 @@ def main(pid, tier, seed, replay_path=None):
                                     fails.append((label + ": after recovery %s (origin cluster %d, destination cluster %d; the failed lookup was over cluster %d) "
                                                   "is answered %r, fault-free it is %r" % (what, q2["origin_off"] // l3.CLUSTER_STEP, q2["dest_off"] // l3.CLUSTER_STEP,
                                                                                          stale // l3.CLUSTER_STEP, g2[:120], l3.canon_route(ref[j][1])[:120]), q, acc, egr, ds, hist))
+                # random SEQUENCES of faults: several faulted exchanges in a row (different faults, different requests, any
+                # position), then every request healthy again: all must be answered as in the fault-free exchange sequence
+                srng = gen.Rng((seed * 977 + di) * 31 + threads)
+                for si in range(6 if tier == "quick" else 20):
+                    if not srv.alive():
+                        srv = l3.Server(binary, cache, stub.port, threads=threads)
+                    hist = []
+                    for _ in range(srng.randint(3, 6)):
+                        qi2 = srng.randint(0, len(queries) - 1)
+                        q2, acc2, egr2 = queries[qi2]
+                        f1, f2 = srng.choice(FAULTS + [None]), srng.choice(FAULTS + [None, None])
+                        script = ([f1, f1] if f1 in RETRIED else [f1]) + ([f2, f2] if f2 in RETRIED else [f2])
+                        stub.set_tables(acc2, egr2)
+                        stub.set_faults(script)
+                        st2, hd2, body2 = srv.get(l3.route_qs(q2), timeout=25)
+                        evals += 1
+                        seq_exchanges += 1
+                        hist.append("%-8s %s   (router script %s)" % ("FAULTS", l3.route_qs(q2), script))
+                        if st2 is None or not srv.alive():
+                            fails.append(("fault sequence (threads=%d): request got no response / server died (exit %s)" % (threads, srv.exit_status()), q2, acc2, egr2, ds, list(hist)))
+                            break
+                    stub.set_faults([])
+                    if not srv.alive():
+                        continue
+                    for j, (q2, acc2, egr2) in enumerate(queries):
+                        stub.set_tables(acc2, egr2)
+                        stub.set_faults([])
+                        st2, hd2, body2 = srv.get(l3.route_qs(q2))
+                        evals += 1
+                        seq_answers += 1
+                        if (st2, body2) != ref[j]:
+                            g2 = l3.canon_route(body2) if st2 is not None else "route noreply"
+                            fails.append(("after a sequence of %d faulted exchanges (threads=%d) a healthy request is answered %r, fault-free it is %r"
+                                          % (len(hist), threads, g2[:120], l3.canon_route(ref[j][1])[:120]), q2, acc2, egr2, ds, hist + ["healthy  %s" % l3.route_qs(q2)]))
+                            break
+                    seq_count += 1
             finally:
                 srv.stop()
                 stub.close()
@@ -255,8 +292,9 @@ def main(pid, tier, seed, replay_path=None):
                evaluations=evals, distinct_nontrivial=len(nontriv),
                recovery_histories=rec_hist, recovery_answers=rec_answers, recovery_histories_distinct_candidate_sets=rec_distinct,
                clusters_used=clusters_used, fault_free_reference_answers=baselines, connect_resets_not_retried=unretried,
+               fault_sequences=seq_count, fault_sequence_exchanges=seq_exchanges, answers_after_fault_sequences=seq_answers,
                rule="each fault of the property's list (refuse, drop, truncate, status 500, empty body, non-JSON, no durations, null entries, fewer entries) at the origin lookup, the destination lookup or both, on 1- and 4-thread servers; expected answer = extracted Osrm.v reply handling + extracted routing model; liveness after every request; "
-                    "stops spread over 2 or 3 clusters 39 km apart so that lookups have different candidate stop sets; recovery history after every fault = healthy request with its origin in another cluster than the failed lookup, then the faulted request again, healthy: both must get the byte-identical answer of the fault-free exchange sequence (which must equal the model's answer); non-trivial = distinct (fault, position, threads, degraded answer class)",
+                    "stops spread over 2 or 3 clusters 39 km apart so that lookups have different candidate stop sets; recovery history after every fault = healthy request with its origin in another cluster than the failed lookup, then the faulted request again, healthy: both must get the byte-identical answer of the fault-free exchange sequence (which must equal the model's answer); non-trivial = distinct (fault, position, threads, degraded answer class); plus random SEQUENCES of 3-6 faulted exchanges (any fault at either lookup, different requests) followed by every request healthy: byte-identical to the fault-free answers",
                samples=[dict(fault="status500", position="origin", expected="route noroute 1")], answer_classes=classes,
                excluded_classes=["reply with MORE entries than stops asked (outside the property's fault list): model and binary both leave defined behaviour (Example osrm_more_entries_is_ub; the binary dies) — counted, not a C20 violation",
                                  "router that accepts and never answers: the client has no timeout, the worker thread blocks (runtime, not modelled)",
